@@ -316,6 +316,13 @@ def aux_props_stage(res, props_file, pinned):
     aux["checked"] = not foreign and all(t in thms for t in pinned)
     aux["theorems"] = thms
     aux["foreign_axioms"] = foreign
+    if res.tier == "thorough":
+        # the independent checker on the auxiliary file too (recorded, never an alarm)
+        with Lock("coq"):
+            rc, out = sh(["coqchk", "-o", "-silent", "-Q", "theories", "VLS", "VLS.Props." + props_file[:-2]],
+                         cwd=COQ, timeout=3000)
+        aux["coqchk_axioms_none"] = rc == 0 and "Axioms: <none>" in out.replace("* Axioms:", "Axioms:")
+        aux["checked"] = aux["checked"] and aux["coqchk_axioms_none"]
     return aux["checked"]
 
 
